@@ -253,6 +253,8 @@ func runWorker(t *testing.T) {
 	start := time.Now() // real time: only bounds how many worlds are explored, never what a world does
 	setKnown(knownFromEnv())
 	sink := newSink(prop, knownFromEnv())
+	startWatchdog()
+	defer watchdogCleanup()
 	for idx := worker; idx < count; idx += workers {
 		if budget > 0 && time.Since(start) > time.Duration(budget)*time.Second {
 			break
@@ -353,6 +355,8 @@ func worldHashes(w *World) (string, string) {
 
 func runReplay(t *testing.T) {
 	plan := loadPlan(os.Getenv("VERIF_REPLAY"))
+	startWatchdog()
+	defer watchdogCleanup()
 	w := execPlan(t, plan, knownFromEnv())
 	out := ReplayOut{Violations: w.Viol, Harness: w.Harness, Known: map[string]int{}}
 	for _, v := range w.Known {
